@@ -41,6 +41,8 @@ ANCHORS = [
 _OUT = ['ok', 'listed', 'unlisted', 'exc-listed', 'exc-sub', 'exc-unlisted', 'exc-chained']
 FLOORS = {'*': {**{f'outcome:{o}:{p}': 10 for o in _OUT for p in ('first', 'middle', 'last')
                    if not (p == 'middle' and o in ('ok', 'unlisted', 'exc-unlisted', 'exc-chained'))},
+                'outcome:exc-identity:first': 10, 'outcome:exc-identity:middle': 10, 'outcome:exc-identity:last': 10,
+                'identity-error:listed': 30, 'identity-error:unlisted': 30,
                 'family:periodic': 100, 'family:exponential': 100, 'family:fibonacci': 100, 'family:custom-iterator': 100, 'exhausted-strategy': 50,
                 'kind:notification': 30, 'kind:batch': 100, 'kind:single': 100, 'client:sync': 300, 'client:async': 300,
                 'source:client': 100, 'source:request': 100, 'source:request-none': 30, 'source:none': 30,
@@ -53,7 +55,9 @@ CODES = {'none': None, 'empty': set(), 'one': {2001}, 'several': {2001, 2002}, '
 # specification reserves for implementation-defined server errors and have no error class of their own
 LISTED_CODE = {'reserved': -32050}
 UNLISTED_CODE = {'reserved': -32051}
-EXCS = {'none': None, 'empty': set(), 'one': {ConnectionError}, 'several': {ConnectionError, TimeoutError}}
+EXCS = {'none': None, 'empty': set(), 'one': {ConnectionError}, 'several': {ConnectionError, TimeoutError},
+        # exceptions the client itself raises while it processes an attempt's reply are exceptions the attempt ended in
+        'identity': {pjrpc.exceptions.IdentityError}, 'base': {pjrpc.exceptions.BaseError, ConnectionError}}
 
 EVENTS = []
 
@@ -152,7 +156,7 @@ class Script:
                 raise ConnectionResetError('low-level')
             except ConnectionResetError as low:
                 raise exc from low
-        if o.startswith('exc'):
+        if o.startswith('exc') and o != 'exc-identity':
             exc = {'exc-listed': ConnectionError, 'exc-sub': ConnectionResetError, 'exc-unlisted': KeyError}[o](f'attempt{k}')
             self.raised.append(exc)
             raise exc
@@ -160,6 +164,15 @@ class Script:
         if is_notification:
             return None
         req = json.loads(text)
+        if o == 'exc-identity':
+            # a well-formed reply that belongs to another request (a stale answer on a reused connection): the strict client
+            # ends the attempt in IdentityError
+            first = req[0] if isinstance(req, list) else req
+            foreign = first['id'] + 1000 if isinstance(first['id'], int) else 'foreign'
+            one = {'jsonrpc': '2.0', 'id': foreign, 'result': f'stale{k}'}
+            if isinstance(req, list):
+                return json.dumps([one] + [{'jsonrpc': '2.0', 'id': r['id'], 'result': f'ok{k}'} for r in req[1:] if 'id' in r])
+            return json.dumps(one)
         if isinstance(req, list):
             if o == 'ok':
                 return json.dumps([{'jsonrpc': '2.0', 'id': r['id'], 'result': f'ok{k}'} for r in req if 'id' in r])
@@ -179,7 +192,8 @@ def model_outcomes(script, listed=2001, unlisted=999):
         elif o in ('listed', 'unlisted'):
             out.append({'kind': 'error-response', 'code': listed if o == 'listed' else unlisted})
         else:
-            cls = {'exc-listed': ConnectionError, 'exc-sub': ConnectionResetError, 'exc-unlisted': KeyError, 'exc-chained': KeyError}[o]
+            cls = {'exc-listed': ConnectionError, 'exc-sub': ConnectionResetError, 'exc-unlisted': KeyError, 'exc-chained': KeyError,
+                   'exc-identity': pjrpc.exceptions.IdentityError}[o]
             out.append({'kind': 'exception', 'exc': cls()})
     return out
 
@@ -223,6 +237,10 @@ def run_session(ctx, spec, codes, excs, is_async, requests):
             ctx.hit('back-below-the-cap')
     for ridx, r in enumerate(requests):
         kind, source, script = r['kind'], r['source'], r['script']
+        if kind == 'notification':
+            script = ['ok' if o == 'exc-identity' else o for o in script]       # nothing comes back that could mismatch
+        if 'exc-identity' in script:
+            ctx.hit('identity-error:' + ('listed' if any(issubclass(pjrpc.exceptions.IdentityError, e) for e in (EXCS[excs] or ())) else 'unlisted'))
         if ridx:
             ctx.hit('session:followup-requests')
         ctx.hit('kind:' + kind)
@@ -325,7 +343,11 @@ def run_session(ctx, spec, codes, excs, is_async, requests):
             continue
         # ---- what reaches the caller is the last attempt's outcome, unchanged
         last = consumed[-1]
-        if last.startswith('exc'):
+        if last == 'exc-identity':
+            if st != 'exc' or type(out) is not pjrpc.exceptions.IdentityError:
+                ctx.violation('last-exception-not-reraised-unchanged:identity-error', fam, cls, **wit)
+                continue
+        elif last.startswith('exc'):
             if st != 'exc' or out is not sc.raised[final]:
                 ctx.violation('last-exception-not-reraised-unchanged', fam, cls, **wit)
                 continue
@@ -410,7 +432,12 @@ def gen(ctx):
                 source = ('client', 'request', 'client', 'request', 'request-none', 'client', 'none')[(k // 2) % 7]
                 if kind == 'notification' and source == 'request':
                     source = 'client'
-                reqs = [{'kind': kind, 'source': source, 'script': list(script),
+                script_ = list(script)
+                if k % 4 == 0 and kind != 'notification':
+                    # the exception an attempt ends in is raised by the client's own reply processing
+                    script_ = ['exc-identity' if o == ('exc-listed', 'exc-unlisted', 'exc-sub')[(k // 4) % 3] else o for o in script_]
+                    excs = ('identity', 'base', 'one', 'identity', 'none')[(k // 4) % 5]
+                reqs = [{'kind': kind, 'source': source, 'script': script_,
                          'entry': ('send', 'call', 'dunder-call', 'proxy', 'send')[(k // 7) % 5]}]
                 # follow-up requests on the same client: each gets a fresh retry budget and fresh pacing
                 if source in ('client', 'request') and (k % 2):
